@@ -214,14 +214,10 @@ func runC31(c *Ctx) {
 func (c *Ctx) rangesOverParam(rule, key string, fn *ssa.Function, param string) {
 	n := 0
 	ok := true
-	for _, b := range fn.Blocks {
-		for _, in := range b.Instrs {
-			if r, isr := in.(*ssa.Range); isr {
-				n++
-				if !paramNamed(r.X, param) {
-					ok = false
-				}
-			}
+	for _, dr := range rangesDeep(fn) {
+		n++
+		if !dr.over(func(v ssa.Value) bool { return paramNamed(v, param) }) {
+			ok = false
 		}
 	}
 	c.R.Check(rule, key, ok && n > 0, c.pos(fn.Pos()), fmt.Sprintf("%s: %d range loop(s), all over parameter %q: %v", fname(fn), n, param, ok))
@@ -362,7 +358,7 @@ func (c *Ctx) enforceAssignments(rule string, enf *ssa.Function, fields []string
 					if fa, ok := st.Addr.(*ssa.FieldAddr); ok {
 						pt := fa.X.Type().Underlying().(*types.Pointer)
 						stt := pt.Elem().Underlying().(*types.Struct)
-						stored[stt.Field(fa.Field).Name()] = st.Val
+						stored[stt.Field(fa.Field).Name()] = resolveAlong(st.Val, res.Trace)
 					}
 				}
 			}
@@ -499,14 +495,10 @@ func runC32(c *Ctx) {
 		}, G1Opt{})
 		// loop domains
 		nRange, okRefs := 0, false
-		for _, b := range fz.Blocks {
-			for _, in := range b.Instrs {
-				if r, isr := in.(*ssa.Range); isr {
-					nRange++
-					if paramNamed(r.X, "references") {
-						okRefs = true
-					}
-				}
+		for _, dr := range rangesDeep(fz) {
+			nRange++
+			if dr.over(func(v ssa.Value) bool { return paramNamed(v, "references") }) {
+				okRefs = true
 			}
 		}
 		c.R.Check("T-frozen", "checkFrozenAddresses|ranges references", okRefs && nRange == 1, c.pos(fz.Pos()), "exactly one map range, over the references parameter")
@@ -570,5 +562,82 @@ func (c *Ctx) earlyLoopExits(fn *ssa.Function, h *ssa.BasicBlock) []string {
 		}
 	}
 	sort.Strings(out)
+	return out
+}
+
+// resolveAlong replaces a (nested) phi by the edge value selected on the walked path (block indexes in order).
+func resolveAlong(v ssa.Value, trace []int) ssa.Value {
+	for n := 0; n < 8; n++ {
+		phi, ok := v.(*ssa.Phi)
+		if !ok {
+			return v
+		}
+		at := -1
+		for k := len(trace) - 1; k >= 1; k-- {
+			if trace[k] == phi.Block().Index {
+				at = k
+				break
+			}
+		}
+		if at < 1 {
+			return v
+		}
+		next := v
+		for i, p := range phi.Block().Preds {
+			if p.Index == trace[at-1] {
+				next = phi.Edges[i]
+			}
+		}
+		if next == v {
+			return v
+		}
+		v = next
+		trace = trace[:at]
+	}
+	return v
+}
+
+// deepRange is a map/string range of a function, or of a same-package helper it calls (via), in which case the
+// helper's parameters stand for the call's arguments.
+type deepRange struct {
+	r   *ssa.Range
+	via *ssa.Call
+}
+
+func (d deepRange) over(pred func(ssa.Value) bool) bool {
+	if d.via == nil {
+		return pred(d.r.X)
+	}
+	ok := false
+	ssau.WithParamSubst(d.via, func() { ok = pred(d.r.X) })
+	return ok
+}
+
+func rangesDeep(fn *ssa.Function) []deepRange {
+	var out []deepRange
+	seen := map[*ssa.Function]bool{}
+	for _, b := range fn.Blocks {
+		for _, in := range b.Instrs {
+			if r, ok := in.(*ssa.Range); ok {
+				out = append(out, deepRange{r: r})
+			}
+			cl, ok := in.(*ssa.Call)
+			if !ok {
+				continue
+			}
+			h := cl.Call.StaticCallee()
+			if h == nil || h.Pkg != fn.Pkg || h == fn || seen[h] || len(h.Blocks) == 0 || len(h.Blocks) > 40 {
+				continue
+			}
+			seen[h] = true
+			for _, hb := range h.Blocks {
+				for _, hin := range hb.Instrs {
+					if r, ok := hin.(*ssa.Range); ok {
+						out = append(out, deepRange{r: r, via: cl})
+					}
+				}
+			}
+		}
+	}
 	return out
 }
